@@ -496,7 +496,7 @@ class KernelPCovR(_BasePCA, LinearModel):
             @ np.linalg.lstsq(t_n.T @ t_n, np.eye(t_n.shape[1]), rcond=self.tol)[0]
             @ t_v.T
         )
-        Lkpca = np.trace(K_VV - 2 * K_VN @ w + w.T @ K_VV @ w) / np.trace(K_VV)
+        Lkpca = np.trace(K_VV - 2 * K_VN @ w + w.T @ K_NN @ w) / np.trace(K_VV)
 
         return -sum([Lkpca, Lkrr])
 
